@@ -6,14 +6,18 @@ from lib import coq_term_str, coq_list as L, coq_Z as Z
 
 THEOREMS = ['C17_derives_rename', 'C17_trees_rename', 'C17_trees_are_derivations',
             'C17_mangle_injective_or_error', 'C17_mangle_collision_only_by_alias', 'C17_mangle_prefix_disjoint',
-            'C17_remove_unused_is_reachability', 'C17_do_import', 'C17_import_is_inlining_partial', 'C17_no_capture',
+            'C17_mangle_is_source',
+            'C17_remove_unused_is_reachability', 'C17_do_import', 'C17_load_under_chain_is_renaming', 'C17_chain_ok',
+            'C17_import_is_inlining', 'C17_import_plain_module', 'C17_no_capture',
+            'C17_compile_rename', 'C17_contributed_language', 'C17_contributed_trees', 'C17_imported_language',
+            'C17_numbering_exists',
             'C17_import_clash_is_error', 'C17_extend_is_alternative', 'C17_extend_keeps_alternatives',
             'C17_extend_term_in_place', 'C17_override_term_fresh_object', 'C17_extend_terminal_is_seen',
             'C17_override_terminal_refuted',
             'C17_override_replaces', 'C17_template_is_substitution', 'C17_subst_no_capture',
             'C17_instance_name_injective', 'C17_template_label_renamed', 'C17_example',
-            'C17_template_label_example']
-GEN_DEPS = []
+            'C17_template_label_example', 'C17_import_is_inlining_example', 'C17_semantic_example']
+GEN_DEPS = ['Mangle']
 RULE = ('random programs of 1-3 module files (plain / renamed / multi / nested %import, %override, %extend, templates with '
         'symbol, literal and nested-template arguments, same-named private rules and terminals in every module, '
         '%extend / %override of imported terminals that other imported terminals are built from (by name, as '
@@ -24,8 +28,10 @@ RULE = ('random programs of 1-3 module files (plain / renamed / multi / nested %
         'single grammar (written with fresh names) on derived sentences, mutated sentences and random strings under '
         'lalr and earley: same acceptance, equal trees after the label map. non-trivial = distinct program with >= 1 '
         'import that contributes >= 2 definitions / distinct (program, input) with an accepted parse')
-TRUSTED_BASE = ['hand model Mod/Modules.v of GrammarBuilder / _get_mangle / resolve_term_references / ApplyTemplates '
-                '(tied by comparing final definitions, per-call template instantiation and mangled names)',
+TRUSTED_BASE = ['hand model Mod/Modules.v of GrammarBuilder / resolve_term_references / ApplyTemplates (tied by comparing '
+                'final definitions and per-call template instantiation); the string operations of _get_mangle are '
+                'regenerated from the source (translator/gen_modules.py, control skeleton pinned by a template) and proved '
+                'equal to the model mangle',
                 'the .lark front end (_parse_grammar, _unpack_import, _make_rule_tuple) is not modelled: the model '
                 'starts from the statement trees lark itself produced',
                 'file search (import_paths, base_path, stdlib loader) is not modelled: modules are found by dotted path',
@@ -1331,6 +1337,14 @@ def correspond(ctx):
                           witness(e['files'], e['main'], e['inlined'], e['labels'], e['parser'], e['text']), True,
                           'modular grammar gives %s, the hand-inlined grammar gives %s' % (str(a)[:160], str(b)[:160]),
                           key=e['key'])
+
+    # check.py counts the keyed known findings above as "a failing input was found" and would then only note a
+    # broken proof obligation / regeneration tie: report those here when no NEW failing input was found
+    broken = list(getattr(ctx, 'proof_broken', [])) + list(getattr(ctx, 'tie_broken', []))
+    if broken and any(v['found'] and v.get('key') for v in ctx.violations) \
+            and not any(v['found'] and not v.get('key') for v in ctx.violations):
+        for what, det in broken:
+            ctx.violation(what, {'no_longer_checks': what, 'detail': det}, False, det)
 
 
 def replay(ctx, case):
